@@ -18,6 +18,18 @@ CLAIMED = {
              "decimals only. Modelled not verified: config.py setters/loaders/_create_sockets parsing, __main__.main.",
         technique="Coq proof over translator-generated tables + in-Coq differential correspondence",
     ),
+    "C20": dict(
+        text="Coq theorems about a model of the three middlewares: the trust boundary of ProxyFix for every header "
+             "list, number of hops and attacker prefix (headers or comma elements), scope untouched with too few "
+             "values, dispatcher first-match routing / 404-iff / lifespan fan-out for every order of completions, and "
+             "the redirect URL. The model is tied to the code by differential execution of the real middleware "
+             "classes (both dispatcher variants on real asyncio and trio) with metamorphic attacker-prefix oracles.",
+        design="7/C20",
+        note="Trusted: Coq kernel + vm_compute, harness/c20.py; deepcopy, urlunsplit, str.strip, dict order are "
+             "CPython's (modelled). No-mutation of the caller's scope is checked on the implementation only (a "
+             "functional model cannot express aliasing). Modelled not verified: middleware/*.py.",
+        technique="Coq proof (induction over header/mount/completion lists) + in-Coq differential correspondence",
+    ),
 }
 NOT_APPLICABLE = {}
 PENDING_REASON = "check not built yet in this session (planned: Coq model + proof + correspondence, see DESIGN.md section 7)"
